@@ -57,6 +57,7 @@ type Runner struct {
 	pkgOf    func(*ssa.Function) string
 	specRec  *specRecorder
 	occ      map[string]int
+	inWait   bool
 }
 
 type LoopInfo struct {
@@ -398,11 +399,17 @@ func (r *Runner) gotoBlock(st *State, to *ssa.BasicBlock) {
 		_ = body
 		back := from != nil && to.Dominates(from) && li.body[to.Index][from.Index]
 		if back {
+			if r.specRec != nil && r.specRec.matches(st, f, to) {
+				r.specRec.record(st)
+				st.dead = true
+				return
+			}
 			if lr := f.loops[to.Index]; lr != nil {
 				r.loopBackEdge(st, f, to, lr)
 				st.dead = true
 				return
 			}
+			panic(unsupported("back edge into a loop that was not entered through its header"))
 		} else {
 			f.prev, f.blk, f.ip = from, to, 0
 			r.loopEnter(st, f, to)
@@ -443,7 +450,14 @@ func (r *Runner) step(st *State) {
 		base := r.operand(st, x.X)
 		r.nilCheck(st, base, exprText(f.fn, x.X), x.Pos())
 		p := r.placeOf(base).withField(x.Field)
-		f.regs[x] = Val{T: x.Type(), C: []Term{r.interiorID(st, p)}, P: p}
+		fv := Val{T: x.Type(), C: []Term{r.interiorID(st, p)}, P: p}
+		if base.Lk != nil {
+			// &cond.L of a condition variable bound to a known mutex
+			if stt, ok := x.X.Type().Underlying().(*types.Pointer).Elem().Underlying().(*types.Struct); ok && stt.Field(x.Field).Name() == "L" {
+				fv.Lk = base.Lk
+			}
+		}
+		f.regs[x] = fv
 	case *ssa.Field:
 		sv := r.operand(st, x.X)
 		lo, hi := fieldRange(x.X.Type(), x.Field)
@@ -647,7 +661,21 @@ func (r *Runner) execUnOp(st *State, f *Frame, x *ssa.UnOp) {
 		r.nilCheck(st, v, exprText(f.fn, x.X), x.Pos())
 		p := r.placeOf(v)
 		r.guardCheck(st, p, false, x.Pos())
-		f.regs[x] = st.load(p)
+		lv := st.load(p)
+		if v.Lk != nil {
+			lv.Lk = v.Lk
+		} else if lk := r.condLockOf(p); lk != nil {
+			lv.Lk = lk
+		}
+		if g, ok := x.X.(*ssa.Global); ok && g.Pkg != nil && r.specs.Globals[g.Pkg.Pkg.Path()+"."+g.Name()] == "nonnil" {
+			// declared: initialised to a non-nil value in init and never reassigned (the latter is checked)
+			if r.globalReassigned(g) {
+				panic(specErr{"global " + g.Name() + " is declared nonnil but is assigned outside init"})
+			}
+			st.assume(Ne(lv.C[0], Zero))
+			st.nonnil[lv.C[0].S] = true
+		}
+		f.regs[x] = lv
 	case token.NOT:
 		f.regs[x] = Val{T: x.Type(), C: []Term{Not(v.Term())}}
 	case token.SUB:
